@@ -79,6 +79,8 @@ deriving Repr, DecidableEq
 /-- one run of `annotate_doc`: the annotated tree with its root symbol table -/
 structure Ann where
   doc : Ref
+  /-- ghost: the request thread that runs it -/
+  by' : Nat
   onlyDefs : Bool
   /-- `false` = published, still being walked; `true` = the walk has finished -/
   filled : Bool
@@ -336,7 +338,7 @@ def stepTh (s : St) (t : Nat) (th : Thread) : Option St :=
   let r := s.recs th.p
   match th.pc with
   | .start =>
-    some (s.setTh t { th with lo := r.completed,
+    some (s.setTh t { th with lo := r.completed, d1 := none,
                               pc := match th.kind with
                                     | .table .around => .lockTree
                                     | .table _ => .tabRead
@@ -388,7 +390,7 @@ def stepTh (s : St) (t : Nat) (th : Thread) : Option St :=
     | none => none
     | some x =>
       let a := s.anns.length
-      some (((s.pushAnn { doc := d, onlyDefs := th.kind.wantsDefs, filled := false }).setDoc d { x with annot := some a }).setTh t
+      some (((s.pushAnn { doc := d, by' := t, onlyDefs := th.kind.wantsDefs, filled := false }).setDoc d { x with annot := some a }).setTh t
               { th with pc := .setDefs d a held })
   | .setDefs d a held =>
     match s.docs[d]? with
@@ -451,8 +453,25 @@ def init (disk : Path → Text) (ops : List Op) (reqs : Reqs) : St :=
 /-! ## classification of pcs (used by the guards and the invariants) -/
 
 def Pc.isDone : Pc → Bool
+  | .start => false
+  | .lockTree => false
+  | .gpRead _ => false
+  | .yParsed _ => false
+  | .tabRead => false
+  | .gpNoCache => false
+  | .check _ => false
+  | .yChecked _ => false
+  | .publish _ _ => false
+  | .setDefs _ _ _ => false
+  | .yPublished _ _ _ => false
+  | .fill _ _ _ => false
+  | .unflag _ _ _ => false
+  | .readAnnot _ => false
+  | .waitFlag _ _ => false
+  | .walk _ => false
+  | .walkTab _ => false
+  | .treeWait _ => false
   | .done _ _ => true
-  | _ => false
 
 /-- received and not yet answered -/
 def Thread.inFlight (th : Thread) : Bool := th.pc != .start && !th.pc.isDone
@@ -462,16 +481,31 @@ def Thread.analysing (th : Thread) : Bool := th.inFlight && th.kind != .symbols
 
 /-- the thread owns annotation `a`, published and not yet filled -/
 def Pc.fills : Pc → Option ARef
-  | .setDefs _ a _ => some a
-  | .yPublished _ a _ => some a
-  | .fill _ a _ => some a
-  | _ => none
+  | .start => none
+  | .lockTree => none
+  | .gpRead _ => none
+  | .yParsed _ => none
+  | .tabRead => none
+  | .gpNoCache => none
+  | .check _ => none
+  | .yChecked _ => none
+  | .publish _ _ => none
+  | .setDefs _ a' _ => some a'
+  | .yPublished _ a' _ => some a'
+  | .fill _ a' _ => some a'
+  | .unflag _ _ _ => none
+  | .readAnnot _ => none
+  | .waitFlag _ _ => none
+  | .walk _ => none
+  | .walkTab _ => none
+  | .treeWait _ => none
+  | .done _ _ => none
 
 /-- main is in the middle of a notification about `p` -/
 def MPc.midOp (p : Path) : MPc → Bool
   | .window q _ => q == p
   | .save q _ => q == p
-  | _ => false
+  | .ops _ => false
 
 /-- the document the next step of the main thread is about -/
 def MPc.opPath : MPc → Option Path
@@ -524,10 +558,24 @@ def runG (cfg : Cfg) (s : St) : List Tid → Option St
 /-- the thread sits at a yield point of the code (or at the harness's `start` point) -/
 def Pc.parked : Pc → Bool
   | .start => true
+  | .lockTree => false
+  | .gpRead _ => false
   | .yParsed _ => true
+  | .tabRead => false
+  | .gpNoCache => false
+  | .check _ => false
   | .yChecked _ => true
+  | .publish _ _ => false
+  | .setDefs _ _ _ => false
   | .yPublished _ _ _ => true
-  | _ => false
+  | .fill _ _ _ => false
+  | .unflag _ _ _ => false
+  | .readAnnot _ => false
+  | .waitFlag _ _ => false
+  | .walk _ => false
+  | .walkTab _ => false
+  | .treeWait _ => false
+  | .done _ _ => false
 
 /-- the main thread sits at `change.window` or at the harness's `op` point -/
 def MPc.parked : MPc → Bool
